@@ -25,4 +25,5 @@ CONSTANTS
   CurSeeks = TRUE
   BucketOps = FALSE
   PreBuckets <- PreA
+  PreCache <- NoKeys
 INVARIANTS TypeOK Disjoint Atomicity Isolation PrefixDurability ReopenOK
